@@ -27,7 +27,11 @@ def gen_scenario(rng, max_threads):
         elif c == 'sleep':
             lines.append('sleep %d' % rng.range(10, 400))
         elif c == 'single':
-            lines.append('single %d' % rng.below(2))       # also with work in flight
+            if nq and rng.chance(1, 2):
+                q = rng.range(1, nq)          # the mode is switched on behind a backlog of a serial queue, and submissions go on
+                lines += ['async %d %d' % (q, rng.range(10, 50)), 'single 1', 'async %d %d' % (q, rng.range(1, 5)), 'single %d' % rng.below(2)]
+            else:
+                lines.append('single %d' % rng.below(2))       # also with work in flight
     if rng.chance(2, 3):
         lines.append('waitpar')
         for q in range(1, nq + 1):
@@ -46,6 +50,9 @@ CORPUS = [
     ('serial_backlog_two_queues', ['seed 6 20', 'disp 4', 'queue', 'queue', 'async 1 50', 'async 2 50', 'par 8', 'waitq 2', 'waitq 1', 'waitpar', 'async 2 40', 'waitq 2', 'del']),
     # many short-lived dispatchers destroyed while their workers are still running or starting (lost wake-up at shutdown)
     ('destroy_busy_dispatchers', ['seed 7 0', 'churn 600 4', 'churn 600 2', 'churn 300 8', 'churn 600 1', 'disp 2', 'par 3', 'waitpar', 'del']),
+    # single-thread mode switched on while a serial queue still has a backlog: later submissions stay behind the earlier ones
+    ('async_in_single_mode_behind_backlog', ['seed 8 0', 'disp 2', 'queue', 'async 1 40', 'single 1', 'async 1 5', 'single 0', 'waitq 1', 'del']),
+    ('async_in_single_mode_one_worker', ['seed 11 200', 'disp 1', 'queue', 'par 6', 'async 1 30', 'single 1', 'async 1 3', 'par 2', 'async 1 3', 'single 0', 'async 1 4', 'waitq 1', 'waitpar', 'del']),
     ('single_mode_with_work_in_flight', ['seed 4 400', 'disp 2', 'par 12', 'single 1', 'waitpar', 'par 3', 'single 0', 'par 9', 'single 1', 'pfor 0 9', 'waitpar', 'del']),
 ]
 
